@@ -244,6 +244,19 @@ class ReplacementFrontend(ConstrainedFrontend):
             return super()._concrete_constraint(er)
         return super()._concrete_constraint(e)
 
+    def _swallowed(self, original, replaced):
+        """
+        Whether the replacements removed a variable from a constraint that no replacement pins down by itself.
+        """
+        if not isinstance(original, Base):
+            return False
+        lost = original.variables - (replaced.variables if isinstance(replaced, Base) else frozenset())
+        if not lost:
+            return False
+        return any(
+            leaf.symbolic and leaf.variables & lost and self._replacement(leaf).symbolic for leaf in original.leaf_asts()
+        )
+
     def _add(self, constraints, invalidate_cache=True):
         if self._auto_replace:
             for c in constraints:
@@ -278,7 +291,10 @@ class ReplacementFrontend(ConstrainedFrontend):
                         self.add_replacement(old, rold.intersection(new))
 
         added = super()._add(constraints)
-        cr = self._replace_list(added)
+        # A replacement may turn the very constraint it was learned from into a constant (y + 2 == 2 becomes 2 == 2).
+        # That is fine where a variable itself is replaced, since every later query has it replaced as well; but
+        # replacing y + 2 says nothing about y, so such a constraint goes to the solver as it is.
+        cr = tuple(c if self._swallowed(c, rc) else rc for c, rc in zip(added, self._replace_list(added), strict=True))
         if not self._allow_symbolic and any(c.symbolic for c in cr):
             raise ClaripyFrontendError(
                 "symbolic constraints made it into ReplacementFrontend with allow_symbolic=False"
